@@ -877,8 +877,20 @@ def translate(repo):
            "def pyMod (a b : Nat) : R Nat := if b = 0 then .error .zeroDivision else .ok (a % b)",
            "def pyDiv (a b : Nat) : R Nat := if b = 0 then .error .zeroDivision else .ok (a / b)", ""]
     failures = {}
+    import pynorm
+    trees = {mod: ast.parse(open(os.path.join(repo, "pyemv", mod + ".py")).read()) for mod in FUNCS}
+    sigs = {}
+    for mod, t in trees.items():
+        for n in t.body:
+            if isinstance(n, ast.FunctionDef) and not (n.args.vararg or n.args.kwarg or n.args.kwonlyargs or n.args.posonlyargs):
+                sigs[f"{mod}.{n.name}"] = [a.arg for a in n.args.args]
     for mod, names in FUNCS.items():
-        tree = ast.parse(open(os.path.join(repo, "pyemv", mod + ".py")).read())
+        aliases = dict(ALIASES)
+        aliases.update({q.split(".", 1)[1]: q for q in sigs if q.startswith(mod + ".")})
+        aliases.update({"_" + q: q for q in sigs})          # `_tools.xor`, `_mac.pad_iso9797_2`, … (module aliases)
+        # harmless rewrites (module constants, private helpers, chained comparisons, …) are brought to the form the
+        # translator reads (harness/pynorm.py); what is left over is judged as before
+        tree = pynorm.normalise(trees[mod], public=names, signatures=sigs, aliases=aliases)
         mod_problem = None
         try:
             check_module(mod, tree)
@@ -891,7 +903,9 @@ def translate(repo):
                 if mod_problem:
                     raise Unsupported(mod_problem)
                 out += translate_function(mod, name, fns)
-            except Unsupported as e:
+            except Exception as e:  # noqa: BLE001  (Unsupported, or a construct the translator trips over)
+                if not isinstance(e, Unsupported):
+                    e = Unsupported(f"the translator could not read it ({type(e).__name__}: {e})")
                 # an untranslatable function is replaced by a stand-in of the same shape that no refinement theorem can
                 # be proved about; its own theorem and those of its callers fail, nothing else does
                 failures[f"{mod}.{name}"] = str(e)
